@@ -301,6 +301,9 @@ impl<'a> LineBreaker<'a> {
 
             inner_list.extend_from_slice(&h_list[start_of_line..*break_point]);
             start_of_line = *break_point + 1;
+            // Whether discardable nodes at the start of the next line are pruned (TeX.2021.879).
+            // They are not if the next line starts with the post-break material of a discretionary.
+            let mut prune_next_line = true;
 
             // TeX.2021.881
             // This is the check that `q != null` in Knuth's TeX.
@@ -315,6 +318,7 @@ impl<'a> LineBreaker<'a> {
                         for pre_break_node in discretionary.pre_break {
                             inner_list.push(pre_break_node.into());
                         }
+                        prune_next_line = discretionary.post_break.is_empty();
                         disc_post_break_nodes = Some(discretionary.post_break);
                         start_of_line += discretionary.replace_count as usize;
                     }
@@ -338,6 +342,20 @@ impl<'a> LineBreaker<'a> {
                     _ => {
                         unreachable!("node cannot appear as a breakpoint: {break_point_node:?}");
                     }
+                }
+            }
+
+            // TeX.2021.879
+            // Prune unwanted nodes at the beginning of the next line.
+            if prune_next_line {
+                let next_break_point = break_points
+                    .get(line_index + 1)
+                    .copied()
+                    .unwrap_or(h_list.len());
+                while start_of_line < next_break_point
+                    && !h_list[start_of_line].non_discardable()
+                {
+                    start_of_line += 1;
                 }
             }
 
@@ -831,6 +849,30 @@ impl<'a> LineBreaker<'a> {
                             }
                             _ => {}
                         }
+                    }
+                    // The loop at the end of TeX.2021.837: discardable nodes after the break
+                    // will be pruned from the next line, so they do not count towards it.
+                    let mut j = match elem {
+                        None => list.len(),
+                        Some(Discretionary(discretionary)) => {
+                            if discretionary.post_break.is_empty() {
+                                i + 1 + discretionary.replace_count as usize
+                            } else {
+                                list.len()
+                            }
+                        }
+                        Some(_) => i + 1,
+                    };
+                    while let Some(next) = list.get(j) {
+                        match next {
+                            Glue(glue) => diffs.update_from_glue(&glue.value),
+                            Penalty(_) | Math(_) => {}
+                            Kern(kern) if kern.kind == ds::KernKind::Explicit => {
+                                diffs.width += kern.width;
+                            }
+                            _ => break,
+                        }
+                        j += 1;
                     }
                     for fitness_class in [
                         FitnessClass::VeryLoose,
